@@ -114,6 +114,15 @@ def pipeline(case):
         # whatever the first run left behind (by-products, intermediate files): both must give the shipped tables
         for attempt, again in ((1, ""), (2, " (second run in the same tree)")):
             first = [s for s in listed if s != LAST]
+            if attempt == 2:
+                # the raw files' timestamps are not data (a checkout, an unzip or a copy sets them in any order): for the second run
+                # they are set in reverse name order (the first run saw them in name order, the order they were copied in)
+                rawdir = os.path.join(scratch, "data", "no_food_trade", "raw_data")
+                names = sorted(os.path.join(dp, f) for dp, _, fs in os.walk(rawdir) for f in fs)
+                t0 = os.path.getmtime(names[0]) if names else 0
+                for i, fn in enumerate(names):
+                    os.utime(fn, (t0 - 3600.0 * i, t0 - 3600.0 * i))
+                obs["raw_files_retimed_for_second_run"] = len(names)
             with concurrent.futures.ThreadPoolExecutor(max_workers=8) as ex:
                 res = list(ex.map(run, first))
             failed = [(s, rc, err) for s, rc, err in res if rc != 0]
